@@ -91,6 +91,7 @@ async fn verify_append_only_hash<TC: Configuration>(
     expected_hash: Digest,
     latest_epoch: Option<u64>,
 ) -> Result<(), AkdError> {
+    ensure_prefix_free(&nodes)?;
     let manager = StorageManager::new_no_cache(
         AsyncInMemoryDatabase::new_with_remove_child_nodes_on_insertion(),
     );
@@ -114,6 +115,32 @@ async fn verify_append_only_hash<TC: Configuration>(
                 hex::encode(computed_hash)
             ),
         )));
+    }
+    Ok(())
+}
+
+/// The nodes of an append-only proof stand for disjoint subtrees, so no label may be
+/// equal to, or a prefix of, another label in the set. Otherwise rebuilding the tree
+/// would silently shadow the node with the shorter label.
+fn ensure_prefix_free(nodes: &[AzksElement]) -> Result<(), AkdError> {
+    // order by the label bits (zero padded), shorter labels first among equal paddings: if
+    // some label is a prefix of another, then it is also a prefix of its successor
+    let mut labels = nodes
+        .iter()
+        .map(|node| node.label.get_prefix(node.label.label_len))
+        .collect::<Vec<_>>();
+    labels.sort_unstable_by(|a, b| {
+        a.label_val
+            .cmp(&b.label_val)
+            .then(a.label_len.cmp(&b.label_len))
+    });
+    for pair in labels.windows(2) {
+        if pair[0].is_prefix_of(&pair[1]) {
+            return Err(AkdError::AuditErr(AuditorError::VerifyAuditProof(format!(
+                "The proof contains overlapping nodes: {} is a prefix of {}",
+                pair[0], pair[1]
+            ))));
+        }
     }
     Ok(())
 }
